@@ -101,6 +101,19 @@ def count (evs : Array Ev) (p : Ev → Bool) : Nat := Id.run do
     if p e then c := c + 1
   return c
 
+def countBefore (evs : Array Ev) (t : Nat) (p : Ev → Bool) : Nat := Id.run do
+  let mut c := 0
+  for j in [0:min t evs.size] do
+    if p evs[j]! then c := c + 1
+  return c
+
+/-- the reply Publish of invocation `k` returned nil (looked up in the whole trace: the return may be logged after the
+    reply already reached its caller) -/
+def publishAccepted (evs : Array Ev) (k : Option Nat) : Bool :=
+  match k with
+  | none => true
+  | some k => evs.any (fun e => match e with | .pr (some k') ok _ => k' == k && ok | _ => false)
+
 /-- clause 1: each caller is handed only replies produced for its own command, carrying the handler's result and
     error text -/
 def ruleReplies (evs : Array Ev) : Option String := Id.run do
@@ -116,11 +129,27 @@ def ruleReplies (evs : Array Ev) : Option String := Id.run do
           | .hr _ i' false res _ => i' == i && res.startsWith "626164"
           | _ => false)
         if !found then return some "replies_only_own(unmarshal-error-without-own-bad-result)"
+        let nRecv := countBefore evs (t + 1) (fun e => match e with
+          | .rv i' "um" _ _ _ => i' == i
+          | _ => false)
+        let nPub := countBefore evs t (fun e => match e with
+          | .pc k (some o') res _ _ true => o' == i && res.startsWith "626164" && publishAccepted evs k
+          | _ => false)
+        if nRecv > nPub then return some "replies_only_own(reply-delivered-more-often-than-published)"
       if kind == "res" then
         let found := anyBefore evs t (fun e => match e with
           | .hr _ i' false res err => i' == i && res == a && err == b
           | _ => false)
         if !found then return some "reply_carries_result_and_error_text"
+        -- … and no more often than it was published for this caller's operation id: a reply delivered twice although
+        -- produced once was not produced for this command (redeliveries after a Nack are separate publications)
+        let nRecv := countBefore evs (t + 1) (fun e => match e with
+          | .rv i' "res" _ a' b' => i' == i && a' == a && b' == b
+          | _ => false)
+        let nPub := countBefore evs t (fun e => match e with
+          | .pc k (some o') res err _ true => o' == i && res == a && err == b && publishAccepted evs k
+          | _ => false)
+        if nRecv > nPub then return some "replies_only_own(reply-delivered-more-often-than-published)"
     | _ => pure ()
   return none
 
